@@ -84,20 +84,6 @@ func genBusProgram(rng *rand.Rand, k busKnobs) *busProgram {
 		}
 		p.optArgs = append(p.optArgs, arg)
 	}
-	// the panic handler's body: publishes (values from 50: no retry of a retry) or registry calls
-	for _, o := range opts {
-		if o == "panicHandler" && rng.Intn(2) == 0 {
-			var as []action
-			for i := 1 + rng.Intn(2); i > 0; i-- {
-				if rng.Intn(3) != 0 {
-					as = append(as, action{kind: "pub", t: rng.Intn(k.ntypes), v: panicRetryBelow + rng.Intn(10)})
-				} else {
-					as = append(as, simpleAct())
-				}
-			}
-			p.bodies[panicBody] = as
-		}
-	}
 	// filters
 	nf := 3
 	for f := 0; f < nf; f++ {
@@ -257,6 +243,30 @@ func genBusProgram(rng *rand.Rand, k busKnobs) *busProgram {
 			}
 		}
 	}
+	// the panic handler's body ("retry the failed event": publishes carry values from 50, so that a retry is not
+	// retried), generated last so that the rest of the program does not depend on it; only in programs whose other
+	// bodies neither publish nor subscribe, so that the retry does not multiply an already recursive program
+	fanout := false
+	for _, as := range p.bodies {
+		for _, a := range as {
+			if a.kind == "pub" || a.kind == "sub" {
+				fanout = true
+			}
+		}
+	}
+	for _, o := range opts {
+		if o == "panicHandler" && !fanout && rng.Intn(2) == 0 {
+			var as []action
+			for i := 1 + rng.Intn(2); i > 0; i-- {
+				if rng.Intn(3) != 0 {
+					as = append(as, action{kind: "pub", t: rng.Intn(k.ntypes), v: panicRetryBelow + rng.Intn(10)})
+				} else {
+					as = append(as, simpleAct())
+				}
+			}
+			p.bodies[panicBody] = as
+		}
+	}
 	return p
 }
 
@@ -291,6 +301,31 @@ func directedBus(name string, idx int) (*busProgram, func([]who) who) {
 		p.opts, p.optArgs = []string{"obs"}, []int{0}
 		p.threads = [][]action{{sub(0, hspec{fn: 0, async: true, seq: true, filter: -1}), pub(0, 1, 0), pub(0, 2, 0), {kind: "wait"}}}
 		return p, threadsThenNewest
+	case name == "bus07" && idx == 1:
+		// Async+Sequential handler busy with the first event; two live events queue up, then one with a cancelled
+		// context, then a live one: the last must not overtake the two that are still queued
+		p := base()
+		p.opts, p.optArgs = []string{"obs"}, []int{0}
+		p.threads = [][]action{{sub(0, hspec{fn: 0, async: true, seq: true, filter: -1}), pub(0, 1, 0), pub(0, 2, 0), pub(0, 3, 0),
+			{kind: "cancel", c: 1}, pub(0, 4, 1), pub(0, 5, 0), {kind: "wait"}}}
+		return p, threadsThenNewest
+	case name == "bus05" && idx == 0:
+		// the retry: a synchronous Sequential handler panics on every event, the panic handler publishes the failed
+		// event again (once); a second handler must get both events and the publisher must come back
+		p := base()
+		p.opts, p.optArgs = []string{"panicHandler"}, []int{0}
+		p.bodies[1] = []action{{kind: "panic", v: 1}}
+		p.bodies[panicBody] = []action{pub(0, panicRetryBelow+1, 0)}
+		p.threads = [][]action{{sub(0, hspec{fn: 0, seq: true, filter: -1, body: 1}), sub(0, hspec{fn: 2, filter: -1}), pub(0, 1, 0), {kind: "count", t: 0}}}
+		return p, newestPick
+	case name == "bus05" && idx == 1:
+		// the same with an asynchronous panicking handler and a Wait
+		p := base()
+		p.opts, p.optArgs = []string{"panicHandler"}, []int{0}
+		p.bodies[1] = []action{{kind: "panic", v: 1}}
+		p.bodies[panicBody] = []action{pub(0, panicRetryBelow+1, 0)}
+		p.threads = [][]action{{sub(0, hspec{fn: 0, async: true, seq: true, filter: -1, body: 1}), sub(0, hspec{fn: 2, filter: -1}), pub(0, 1, 0), {kind: "wait"}, {kind: "count", t: 0}}}
+		return p, newestPick
 	case name == "bus04" && idx == 0:
 		// Once handler: a publish with an already-cancelled context, then an eligible one
 		p := base()
@@ -423,7 +458,7 @@ func init() {
 	// be held before they take the handler's lock
 	fam("bus07", 200, 6000, func(rng *rand.Rand) busKnobs {
 		return busKnobs{threads: 1 + rng.Intn(3), ntypes: 1 + rng.Intn(2), async: true, wAsync: 60, seq: true, wSeq: 80,
-			obs: b2(rng), panics: rng.Intn(4) == 0, viaAny: true, actsPerThread: 5}
+			obs: b2(rng), panics: rng.Intn(4) == 0, viaAny: true, ctx: rng.Intn(3) == 0, wCtxPub: 30, actsPerThread: 5}
 	})
 	// C08: cancellation at every point, context-aware handlers, all hook subsets
 	fam("bus08", 200, 6000, func(rng *rand.Rand) busKnobs {
